@@ -644,7 +644,50 @@ def ctor_params(check):
         check.ok("CTOR-PARAM", "%d constructor parameters" % n, "every constructor parameter in the scope of this property is used (stored or forwarded)")
 
 
+def bc_dict_pure(check):
+    """BC-DICT-PURE: the boundary descriptions the caller hands to a discretisation (bcL / bcR / bclist dictionaries) are INPUT:
+    neither the constructor nor any method writes into them.  One dictionary commonly describes several boundaries (a wall has
+    no parameters: `b = {'type': 'sym'}; fvm(..., bcL=b, bcR=b)`, a closed box with one dictionary for its four tags) and
+    outlives the discretisation (another mesh, another solver): an entry stored for one boundary is read back for the others."""
+    pid, proj = check.pid, check.proj
+    if pid not in ("C01", "C03", "C10", "C15", "C16"):
+        return
+    an = alias_analysis(proj)
+    n = bad = 0
+    for ci in proj.all_classes():
+        if ci.module.short != "modeldisc":
+            continue
+        try:
+            summ = proj.ctor_summary(ci)
+        except AnalysisError:
+            summ = {}
+        held = {a: b[1] for a, b in summ.items() if isinstance(b, tuple) and b and b[0] == "param" and str(b[1]).lower().startswith("bc")}
+        ctor = proj.resolve(ci, "__init__")
+        bcparams = [p_ for p_ in (ctor.params[1:] if ctor is not None else []) if p_.lower().startswith("bc")]
+        if not held and not bcparams:
+            continue
+        for f in ci.methods.values():
+            n += 1
+            for o, (ln, text, via, kind) in an.summ[f.qualname].mut.items():
+                if kind != "inplace":
+                    continue
+                hit = None
+                if o.startswith("S:") and o[2:].split("[")[0].split(".")[0] in held:
+                    hit = "self.%s (the caller's `%s`)" % (o[2:].split("[")[0], held[o[2:].split("[")[0].split(".")[0]])
+                elif f.name == "__init__" and o.startswith("P:") and o[2:].split("[")[0].split(".")[0] in bcparams:
+                    hit = "the caller's `%s`" % o[2:].split("[")[0]
+                if hit and (f.name == "__init__" or not (via or "").endswith("__init__")):
+                    bad += 1
+                    check.violation("BC-DICT-PURE", f.qualname, "%s is written into (`%s`, line %d%s): the dictionary belongs to the caller and may describe several boundaries / serve several discretisations -- what is stored for one is read back for the others (one wall dictionary for both ends: the second orientation overwrites the first; one dictionary for four tags: every side gets the first side's normal)"
+                                    % (hit, text[:60], ln, (", through %s" % via) if via else ""), "%s:%d" % (f.module.relpath, ln), key="writes-" + o[2:].split("[")[0].split(".")[0])
+                    break
+    check.floor("methods of discretisations holding boundary dictionaries", n, 10)
+    if not bad:
+        check.ok("BC-DICT-PURE", "%d methods of the discretisation classes" % n, "none writes into a boundary dictionary received from the caller (directly, through a dictionary view, or through a function it calls)")
+
+
 def run(check):
+    check.guarded("BC-DICT-PURE", "modeldisc", lambda: bc_dict_pure(check))
     check.guarded("CTOR-PARAM", "constructors", lambda: ctor_params(check))
     check.guarded("DTYPE-FOLLOW", "flux kernels", lambda: dtype_rule(check))
     check.guarded("DTYPE-NARROW", "scope of %s" % check.pid, lambda: dtype_narrow(check))
